@@ -87,7 +87,17 @@ def module_name(inp, order):
             return dict(exc=exc_class(e))
     finally:
         verifier.binascii = old
-    out = dict(name=v.get_module_name(), cdefsources=list(ffi._cdefsources), class_key=v._vengine._class_key)
+    # debug build of CPython: get_module_name tests hasattr(sys, 'gettotalrefcount')
+    fake_debug = bool(inp.get("debug")) and not hasattr(sys, "gettotalrefcount")
+    if fake_debug:
+        sys.gettotalrefcount = lambda: 0
+    try:
+        observed = v.get_module_name()
+    finally:
+        if fake_debug:
+            del sys.gettotalrefcount
+    out = dict(name=observed, cdefsources=list(ffi._cdefsources), class_key=v._vengine._class_key,
+               tmpdir=v.tmpdir, suffix=verifier._get_so_suffixes()[0], modulefilename=v.modulefilename)
     if len(cap.calls) == 2:
         ev, od = cap.calls
         key = bytearray(len(ev) + len(od))
